@@ -437,6 +437,22 @@ impl<'a, T: Read + Write + Seek> PointCloudWriter<'a, T> {
                     "Type mismatch at index {i}: value type does not match prototype"
                 ))?
             }
+
+            // Integer values outside of the declared range cannot be stored
+            let in_range = match (&p.data_type, value) {
+                (RecordDataType::Integer { min, max }, RecordValue::Integer(v)) => {
+                    min <= v && v <= max
+                }
+                (RecordDataType::ScaledInteger { min, max, .. }, RecordValue::ScaledInteger(v)) => {
+                    min <= v && v <= max
+                }
+                _ => true,
+            };
+            if !in_range {
+                Error::invalid(format!(
+                    "Value at index {i} is outside of the minimum and maximum of the prototype"
+                ))?
+            }
         }
 
         // Go over all values to extract min/max values
